@@ -16,7 +16,8 @@ From Coq Require Import List Bool Arith NArith.
 Import ListNotations.
 
 Inductive leafk :=
-| Acquire (lock : N)     (* sync.Mutex/RWMutex Lock/RLock on the named lock object *)
+| Acquire (lock : N)     (* sync.Mutex/RWMutex Lock/RLock (and TryLock) on the named lock object *)
+| Release (lock : N)     (* Unlock/RUnlock of the named lock object: never waits, but touches the lock *)
 | ChanOp                 (* channel send / receive / range *)
 | Select
 | CondWait
